@@ -46,7 +46,7 @@ def rand_bytes(rng, n=None):
 
 def draw_events(rng):
     # (keys starting with `_` are the ones the chain itself adds to every contract event: they are part of the events too)
-    return [{"type": rng.choice(["wasm", "transfer", "e", "execute", "instantiate"]) + (str(i) if rng.random() < 0.7 else ""),
+    return [{"type": rng.choice(["wasm", "transfer", "e", "execute", "instantiate", "wasm-transfer_done", "wasm-", "wasm-wasm-x"]) + (str(i) if rng.random() < 0.7 else ""),
              "attributes": [{"key": rng.choice(["k", "k", "_contract_address", "_x", "_"]) + (str(j) if rng.random() < 0.6 else ""), "value": str(rng.randrange(1000))}
                             for j in range(rng.choice([0, 1, 3]))]}
             for i in range(rng.choice([0, 1, 2, 3]))]
